@@ -57,6 +57,30 @@ theorem run_refines_ordered_map (hc : c.Lawful) (he : EraseOrder c P) (ops : Lis
   have := run_spec hc he (SortedDeque.sinv_empty (c := c) (P := P) (α := α)) ops hv
   rwa [SortedDeque.abs_empty] at this
 
+/-- The same from `SortedDeque::new(container, marker)` for any container the caller is
+entitled to hand over: the items as pushed (`gp`: in play, live, strictly sorted), some of
+the inner ones possibly erased since, both ends live.  (`new` itself checks nothing.) -/
+theorem run_refines_from_container (hc : c.Lawful) (he : EraseOrder c P) (l : List α)
+    (gp : List (α × Bool)) (hg : Ghost c P l gp)
+    (hhead : ∀ x, l.head? = some x → c.isErased x = false)
+    (hlast : ∀ x, l.getLast? = some x → c.isErased x = false)
+    (ops : List (Op α κ)) (hv : ∀ op ∈ ops, ValidOp c P op) :
+    match runRef c (live c l) ops with
+    | none => run c (SortedDeque.new l) ops = none
+    | some (rs, m) => ∃ s', run c (SortedDeque.new l) ops = some (rs, s') ∧ abs c s' = m ∧ SInv c P s' := by
+  have hs : SInv c P (SortedDeque.new l) :=
+    ⟨Woodpile.SlidingDeque.SDeque.inv_ofList l,
+      by simpa [SortedDeque.new, Woodpile.SlidingDeque.SDeque.view_ofList] using hhead,
+      by simpa [SortedDeque.new, Woodpile.SlidingDeque.SDeque.view_ofList] using hlast,
+      ⟨gp, by simpa [SortedDeque.new, Woodpile.SlidingDeque.SDeque.view_ofList] using hg⟩⟩
+  have habs : abs c (SortedDeque.new l) = live c l := by
+    simp [abs, SortedDeque.new, Woodpile.SlidingDeque.SDeque.view_ofList]
+  have := run_spec hc he hs ops hv
+  rw [habs] at this
+  cases hr : runRef c (live c l) ops with
+  | none => rw [hr] at this; exact this
+  | some p => obtain ⟨rs, m⟩ := p; rw [hr] at this; exact this
+
 /-- **No valid sequence panics**: if no push violates the order (the reference run succeeds),
 the run succeeds — no `check_rep` of either layer fails, the binary search stays in bounds,
 `cleanup_back` terminates, and no other assertion fires. -/
@@ -246,6 +270,11 @@ example : run pairCmp SortedDeque.empty [.push (2, some 20), .push (2, some 21)]
 example : runRef pairCmp [] [.push (2, some 20), .push (2, some 21)] = none := by decide
 -- `check_rep` is not vacuous: a deque whose first item is erased fails it.
 example : SortedDeque.checkRep pairCmp (SortedDeque.new [(1, none), (2, some 1)]) = none := by decide
+-- the hypotheses of `run_refines_from_container` are satisfiable by a container with an
+-- inner tombstone
+example : Ghost pairCmp (fun _ => True) [(1, some 10), (2, none), (3, some 30)]
+    [((1, some 10), false), ((2, some 20), true), ((3, some 30), false)] :=
+  ⟨by decide, by decide, by decide⟩
 -- `DistinctKeys` is satisfiable by an interesting set (the harness's `value = 10*key + 1`).
 example : DistinctKeys (fun x => x.2 = some (10 * x.1 + 1)) := by
   intro x y hx hy h
